@@ -169,6 +169,12 @@ func runSelftest(args []string) int {
 	} else {
 		fmt.Println("selftest apalache-pinned: counterexample found as required")
 	}
+	if r, out := apalacheCheck(filepath.Join(dir, "apa-oneof"), "APA_Oneof", "--init=IndInit", "--next=NextBroken", "--inv=IndInv", "--length=1"); r != "Error" {
+		fmt.Printf("selftest apalache-oneof-broken: expected a counterexample for a Set that keeps the other members, got %q %s\n", r, trunc(lastLines(out, 4), 300))
+		fail++
+	} else {
+		fmt.Println("selftest apalache-oneof-broken: counterexample found as required")
+	}
 	// the variants that need a schema and the binding tests need the harness
 	s, err := NewScratch(false, "")
 	defer s.Close()
